@@ -458,6 +458,10 @@ def gen_ssl(rng, full):
                ("ssl.create_default_context", ("import_m",)), ("ssl.SSLContext.wrap_socket", ("import_m",))]
     for q, sp in targets:
         out += calls_programs(q, al, spell=sp, pre=pre, per=7)
+    # any number of positional arguments short of the sixth (which is ssl_version itself) leaves the version unset
+    out.append(P(pre + ["ssl.wrap_socket(zz_s)", "ssl.wrap_socket(zz_s, zz_k)", "ssl.wrap_socket(zz_s, zz_k, zz_c, True)",
+                        "ssl.wrap_socket(zz_s, zz_k, zz_c, True, ssl.CERT_REQUIRED)", "ssl.wrap_socket(zz_s, zz_k, zz_c, True, ssl.CERT_REQUIRED, ca_certs=zz_ca)"]))
+    out[-1]["keep"] = True
     out.append(P(pre + ["zz_ctx.wrap_socket(zz_s, ssl_version=ssl.PROTOCOL_SSLv2)", "wrap_socket(ssl_version=ssl.PROTOCOL_SSLv2)",
                         "zz_f()(ssl_version=ssl.PROTOCOL_SSLv2)", "zz_x[0](method=SSL.SSLv2_METHOD)",
                         "ssl.wrap_socket(ssl_version=ssl.PROTOCOL_SSLv2)(method=SSL.SSLv3_METHOD)",
@@ -737,7 +741,8 @@ def programs(rng, tier):
         sec = fn(rng, full)
         if not full and len(sec) > quota:
             # keep the order; a deterministic stratified sample
-            idx = sorted(rng.sample(range(len(sec)), quota))
+            kept = [i for i, p_ in enumerate(sec) if p_.get("keep") or "ZzSame" in p_["src"] or "zz_outer" in p_["src"] or "zz_speedups" in p_["src"]]
+            idx = sorted(set(rng.sample(range(len(sec)), quota)) | set(kept))    # hand-picked programs are never sampled away
             sec = [sec[i] for i in idx]
         out += sec
     if full and len(out) > 30000:
